@@ -132,9 +132,11 @@ OnStep(r, ev) ==
      \* ... and so are the return locations kept for the procedures that are running (C08): a call stack that no alternative
      \* of the model leaves is reported under `control` too -- the return that uses it would otherwise look right, because
      \* the state is resynchronised to what was logged (seeded change C08-q: return location masked to 16 bits)
-     /\ IF ok \/ dev # "" \/ (\E x \in alts : x.stack = ev.stack) THEN TRUE
+     \* (a CALL or RET of a whole program that differs from the model in any other way -- a register, a flag, a memory
+     \* byte -- is reported here as well: calls and returns are exercised in whole programs, not one by one)
+     /\ IF ok \/ dev # "" \/ ((\E x \in alts : x.stack = ev.stack) /\ ins.cls \notin {"call", "ret"}) THEN TRUE
         ELSE V("control", <<"the call stack after", ev.line, "at index", ev.idx, "is", ev.stack,
-                            "the specification allows", {x.stack : x \in alts}>>)
+                            "the specification allows", {x.stack : x \in alts}, "differences", Explain(d.m, evx, Exec(d.m, ins, ev.idx))>>)
      \* printing and the prompt never change the machine (C17, C20): a step that does not start from the state the
      \* previous step left, directly after a print statement or a prompt command, is theirs
      /\ IF ok \/ dev # "" \/ l = 1 THEN TRUE
